@@ -247,11 +247,15 @@ func (w *Writer) DeleteNode(x *skiplist.Node) (success bool) {
 	sn := w.GetCurrSn()
 	gotItem := (*Item)(x.Item())
 	if gotItem.bornSn == sn {
-		x.SetLink(nil)
 		success = w.store.DeleteNode(x, w.insCmp, w.buf, &w.slSts1)
 
-		barrier := w.store.GetAccesBarrier()
-		barrier.FlushSession(unsafe.Pointer(x))
+		// Only the writer that unlinked the node may hand it to the reclaimer;
+		// a loser doing the same gets the node freed twice.
+		if success {
+			x.SetLink(nil)
+			barrier := w.store.GetAccesBarrier()
+			barrier.FlushSession(unsafe.Pointer(x))
+		}
 		return
 	}
 
